@@ -18,6 +18,7 @@ type hcase struct {
 	ml   []int          // step -> the model's index of the loader the operation names (the type-set loaders that the
 	//                      resolution of a type set creates are loaders of the model too)
 	adds map[int]string // step -> the Gallina term of an AddTypes operation (the types as they were parsed)
+	ctx  []int          // step -> the model's number of the loader that the context of the operation's loader holds afterwards
 }
 
 func (c hcase) gallina() string {
@@ -39,7 +40,11 @@ func (c hcase) gallina() string {
 			outs[i] = "XR (" + c.outs[i] + ")"
 		}
 	}
-	return "(" + lib.GList(ops, "xop") + ",\n    " + lib.GList(outs, "xout") + ")"
+	ctx := make([]string, len(c.ctx))
+	for i, x := range c.ctx {
+		ctx[i] = fmt.Sprintf("%d%%nat", x)
+	}
+	return "(" + lib.GList(ops, "xop") + ",\n    " + lib.GList(outs, "xout") + ",\n    " + lib.GList(ctx, "nat") + ")"
 }
 
 // runHistory runs a history on the implementation (fresh loaders) and on the reference specification;
@@ -57,6 +62,14 @@ func runHistory(c px.Context, ops []opT) (hc hcase, bad int, want string) {
 		hc.outs = append(hc.outs, got)
 		if o.Kind == "AddTypes" {
 			hc.adds[i] = w.lastAddGallina(hc.ml[i])
+		}
+		// (the numbers of the loaders as they were before the operation: a context holds a loader that existed then)
+		if o.Kind == "NewDep" {
+			hc.ctx = append(hc.ctx, 0)
+		} else {
+			hc.ctx = append(hc.ctx, w.ctxLoader(o.L))
+		}
+		if o.Kind == "AddTypes" {
 			w.hidden += w.lastHidden
 		}
 		if bad >= 0 {
@@ -79,7 +92,7 @@ func runHistory(c px.Context, ops []opT) (hc hcase, bad int, want string) {
 }
 
 func newCases() *lib.CasesFile {
-	return &lib.CasesFile{Imports: []string{"Model.Base", "Model.Loader", "Model.LoaderAdd", "Corr.CorrC12"}, Typ: "list xop * list xout",
+	return &lib.CasesFile{Imports: []string{"Model.Base", "Model.Loader", "Model.LoaderAdd", "Corr.CorrC12"}, Typ: "list xop * list xout * list nat",
 		Prelude:     gallinaPrelude(),
 		Obligations: map[string]string{"loader_model": "loader_mismatches cfg cases", "loader_spec": "loader_spec_violations cfg cases"}}
 }
@@ -183,9 +196,10 @@ func main() {
 	cfg := lib.ParseFlags()
 	res := lib.NewResult("C12")
 	res.Rule = "histories of construct/define/load/load-entry/get-entry/has/discover operations and px.AddTypes of freshly parsed type sets " +
-		"(nested sets, object members) and object types over loader trees (static or fresh root, parented, forked, type-set loaders): corpus, " +
-		"bounded-exhaustive over 7 tree shapes, seeded random to length 50; a history is non-trivial when it contains a redefinition " +
-		"(rejected, or an equal-value no-op), a px.AddTypes that ends with a redefinition error, or a lookup that misses and later succeeds " +
+		"(nested sets, object members; also sets that are rejected while their members are resolved) and object types over loader trees " +
+		"(static or fresh root, parented, forked, type-set loaders), every loader with a context of its own that lives as long as the history: corpus, " +
+		"bounded-exhaustive over 9 tree shapes, seeded random to length 50; a history is non-trivial when it contains a redefinition " +
+		"(rejected, or an equal-value no-op), a px.AddTypes that ends with a reported error, or a lookup that misses and later succeeds " +
 		"through the same loader; distinct = distinct operation sequences"
 	rng := lib.NewRng(cfg.Seed)
 	if pf := os.Getenv("C12_PROF"); pf != "" {
